@@ -52,6 +52,8 @@ func doDump(p *Prog, what string) {
 				fmt.Printf("%s %s in %s chan=%s\n", p.Pos(op.Node), op.Kind, op.Fn.Name, op.Chan)
 			}
 		}
+	case what == "ingress":
+		dumpIngress(p)
 	case what == "alias":
 		dumpAlias(p)
 	case what == "funcs":
@@ -196,4 +198,79 @@ func (p *Prog) PerPeerFields() []PerPeerField {
 	}
 	sort.Slice(out, func(i, j int) bool { return out[i].Name < out[j].Name })
 	return out
+}
+
+func dumpIngress(p *Prog) {
+	cone := p.ReachFrom("(*PubSub).handleIncomingRPC", "(*PubSub).handleNewStream", "(*validation).validate", "(*RPC).LogValue", "(*validation).validateWorker")
+	fmt.Println("cone size", len(cone))
+	isPbPtr := func(t types.Type) bool {
+		pt, ok := t.(*types.Pointer)
+		if !ok {
+			return false
+		}
+		n, ok := pt.Elem().(*types.Named)
+		return ok && n.Obj().Pkg() != nil && strings.HasSuffix(n.Obj().Pkg().Path(), "/pb")
+	}
+	for _, f := range p.All {
+		if !cone[f] || p.IsGenerated(f.Body) {
+			continue
+		}
+		inspectNoLit(f.Body, func(n ast.Node) bool {
+			switch x := n.(type) {
+			case *ast.SelectorExpr:
+				s, ok := f.Info().Selections[x]
+				if !ok || s.Kind() != types.FieldVal {
+					return true
+				}
+				if t := f.Info().TypeOf(x.X); t != nil && isPbPtr(t) {
+					fmt.Printf("DEREF %s in %s: %s   base=%s\n", p.Pos(x), f.Name, p.Src(x), p.R(f).Val(x.X))
+				}
+			case *ast.StarExpr:
+				if t := f.Info().TypeOf(x.X); t != nil {
+					if _, isPtr := t.(*types.Pointer); isPtr {
+						v := p.R(f).Val(x.X)
+						if v.Kind == "field" && strings.HasPrefix(v.Name, "pb.") {
+							fmt.Printf("STAR %s in %s: %s\n", p.Pos(x), f.Name, p.Src(x))
+						}
+					}
+				}
+			case *ast.IndexExpr:
+				if t := f.Info().TypeOf(x.X); t != nil {
+					if _, isMap := t.Underlying().(*types.Map); isMap {
+						return true
+					}
+					if _, isSig := t.Underlying().(*types.Signature); isSig {
+						return true
+					}
+				}
+				if tv, ok := f.Info().Types[x.Index]; ok && tv.Value != nil {
+					fmt.Printf("INDEXC %s in %s: %s\n", p.Pos(x), f.Name, p.Src(x))
+					return true
+				}
+				if tv, ok := f.Info().Types[x.Index]; ok && tv.IsType() {
+					return true
+				}
+				fmt.Printf("INDEX %s in %s: %s   idx=%s\n", p.Pos(x), f.Name, p.Src(x), p.R(f).Val(x.Index))
+			case *ast.SliceExpr:
+				fmt.Printf("SLICE %s in %s: %s\n", p.Pos(x), f.Name, p.Src(x))
+			case *ast.TypeAssertExpr:
+				if x.Type == nil {
+					return true
+				}
+				if as, ok := p.parents[x].(*ast.AssignStmt); ok && len(as.Lhs) == 2 {
+					return true
+				}
+				if vs, ok := p.parents[x].(*ast.ValueSpec); ok && len(vs.Names) == 2 {
+					return true
+				}
+				fmt.Printf("ASSERT1 %s in %s: %s\n", p.Pos(x), f.Name, p.Src(x))
+			case *ast.CallExpr:
+				nm := p.CalleeName(f.Info(), x)
+				if nm == "builtin.panic" || strings.HasPrefix(nm, "math/rand.Intn") || strings.Contains(nm, "rand.Intn") || nm == "time.Sleep" || strings.HasSuffix(nm, "Cond).Wait") {
+					fmt.Printf("CALL %s in %s: %s\n", p.Pos(x), f.Name, p.Src(x))
+				}
+			}
+			return true
+		})
+	}
 }
